@@ -91,6 +91,10 @@ def gen_cases():
         lines.append("end")
         cases.append(lines)
         i += 1
+    # a lifecycle source whose before_sleep hook is slow: the wait is computed from the clock as it stands after the hooks
+    for timeout, timers in itertools.product(["400", "1000"], [["300"], ["300", "350"]]):
+        cases.append(["case t%d" % i, "timeout " + timeout, "dispatches 1"] + ["timer " + t for t in timers] + ["source lifeslow 100", "end"])
+        i += 1
     return cases
 
 
@@ -104,6 +108,7 @@ def judge(case, trace):
     hard, soft = [], []
     waker = next((int(l.split()[1]) for l in case if l.startswith("waker")), None)
     has_closed = any("closed" in l or "chanfull" in l for l in case)
+    hook_ms = sum(int(l.split()[2]) for l in case if l.startswith("source lifeslow"))
     for l in trace:
         if not l.startswith("disp "):
             continue
@@ -118,6 +123,11 @@ def judge(case, trace):
         if due is not None:
             if nxt is None:
                 hard.append("dispatch %d: a timer is armed (due in %d ns) but the poll saw no deadline" % (idx, due))
+            elif hook_ms:
+                # the hooks ran between the harness's sample and the loop's: the loop's is the later one
+                if not (due - (hook_ms + 200) * MS <= nxt <= due - (hook_ms - 2) * MS):
+                    hard.append("dispatch %d: the before_sleep hooks took %d ms; time to the earliest armed deadline was %d ns before them, "
+                                "the poll used %d ns (the clock was read before the hooks ran?)" % (idx, hook_ms, due, nxt))
             elif not (due - 20 * MS <= nxt <= due):
                 hard.append("dispatch %d: time to the earliest armed deadline is %d ns, the poll used %d ns" % (idx, due, nxt))
         if idx == 0 and has_closed:
